@@ -207,9 +207,8 @@ theorem bgStep_next (fs : List Scaffold) (h : Str) (G : List GroupData) (o : Str
     simp only [e]
     by_cases ho : c :: r = o
     · subst ho
-      simp [newGroup, dGet?, groupAdd, dSet, mkGroup, pure, Except.pure, bind, Except.bind]
-    · have ho' : ¬ o = c :: r := fun h => ho h.symm
-      simp [newGroup, dGet?, groupAdd, dSet, mkGroup, pure, Except.pure, bind, Except.bind, ho]
+      simp [dGet?, groupAdd, dSet, mkGroup, pure, Except.pure, bind, Except.bind]
+    · simp [newGroup, dGet?, groupAdd, dSet, mkGroup, pure, Except.pure, bind, Except.bind, ho]
   · rw [e] at hgood; cases hgood
 
 /-- `(name, id)` pairs of the entries -/
